@@ -71,6 +71,10 @@ def random_events(ctx, rnd, n):
         if rnd.random() < 0.08:
             g = rnd.choice(["2+8.40", "--9.24", "+-0.30", "5-", "1-6", "++06.13", "+7-57", "-0+.30", "3+00"])
             evs.append(tc.ev_conv("z%d" % i, t, date + hms + rnd.choice(["", "." + ms]) + "[" + g + ":" + rnd.choice(["EST", "PST", "CDT", "XYZ"]) + "]"))
+        # offsets beyond the notation's range (-12 .. +14 hours)
+        if rnd.random() < 0.06:
+            g = rnd.choice(["+15", "-13", "+99", "15", "+24", "-24.00", "+15.30", "-13.59"])
+            evs.append(tc.ev_conv("o%d" % i, t, date + hms + rnd.choice(["", "." + ms]) + "[" + g + rnd.choice(["", ":XYZ", ":EST"]) + "]"))
         # a corruption of the text
         k = rnd.random()
         if text and k < 0.6:
@@ -121,7 +125,9 @@ def random_events(ctx, rnd, n):
         ok2, r2, _, _ = tc.call(el_dt.convert, v)
         if ok or ok2:
             ctx.fail({"what": "naive datetime accepted", "kind": "naive", "value": repr(v)})
-    for v in [datetime.time(1, 2, 3), datetime.time(23, 59, 59, 999999)]:
+    # (a time whose zone has date-dependent rules has no UTC offset of its own: it is naive)
+    for v in [datetime.time(1, 2, 3), datetime.time(23, 59, 59, 999999), datetime.time(12, 0, 0, tzinfo=zones[0]),
+              datetime.time(0, 30, 0, 250000, tzinfo=zones[1])]:
         ok, r, _, _ = tc.call(el_tm.unconvert, v)
         ok2, r2, _, _ = tc.call(el_tm.convert, v)
         if ok or ok2:
